@@ -513,6 +513,9 @@ func enumC08(tier Tier, yield func(C08Case)) {
 func genC08(t *rapid.T, tier Tier) C08Case {
 	if rapid.IntRange(0, 3).Draw(t, "grid?") == 0 {
 		L := rapid.IntRange(0, 8).Draw(t, "len")
+		if rapid.IntRange(0, 9).Draw(t, "long?") == 0 {
+			L = rapid.IntRange(15, 70).Draw(t, "longlen")
+		}
 		c := C08Case{Mode: "grid", Kind: rapid.SampledFrom(stackKinds).Draw(t, "kind"), Len: L, NilAt: -1, Neg: rapid.Bool().Draw(t, "neg"), Fwd: rapid.Bool().Draw(t, "fwd"), FIFO: rapid.Bool().Draw(t, "fifo")}
 		if L > 0 && rapid.Bool().Draw(t, "hasnil") {
 			c.NilAt = rapid.IntRange(0, L-1).Draw(t, "nilat")
